@@ -16,16 +16,11 @@ package dtlshandshake
 //@ ensures hash-length: result1 == nil ==> argInt("HkdfExpandLabel", 4) == len(current)
 //@ end
 
-// The derivation is used by contract (non-ghost part: an error carries no secret).
-//@ func deriveNextApplicationTrafficSecret
-//@ ensures no-secret-on-error: result1 != nil ==> isNil(result0)
-//@ end
-
 // Next generation = (epoch+1, generation+1, traffic-update successor secret, protection keyed by
 // that secret); the 16-bit epoch never wraps.
 
 //@ func postHandshake.nextTrafficGeneration
-//@ watch deriveNextApplicationTrafficSecret NewRecordProtection
+//@ watch deriveNextApplicationTrafficSecret CipherSuiteTLS13.NewRecordProtection
 //@ requires args: p != nil && current != nil
 //@ requires suite-payload: p.state != nil && p.state.Common != nil ==> isNil(p.state.Common.CipherSuite) || nonNilPayload(p.state.Common.CipherSuite)
 //@ requires state-common: p.state != nil ==> p.state.Common != nil
@@ -36,11 +31,10 @@ package dtlshandshake
 //@ ensures secret-is-successor: result1 == nil ==> ncalls("deriveNextApplicationTrafficSecret") == 1 && retErr("deriveNextApplicationTrafficSecret", 1) == nil
 //@    && sameSlice(result0.Secret, retBytes("deriveNextApplicationTrafficSecret", 0))
 //@ ensures successor-of-current: result1 == nil ==> sameSlice(argBytes("deriveNextApplicationTrafficSecret", 1), current.Secret)
-//@ ensures protection-from-secret: result1 == nil ==> ncalls("NewRecordProtection") == 1 && retErr("NewRecordProtection", 1) == nil
-//@    && sameRef(result0.Protection, retAs("NewRecordProtection", 0, result0.Protection)) && sameSlice(argBytes("NewRecordProtection", 1), result0.Secret)
+//@ ensures protection-from-secret: result1 == nil ==> ncalls("CipherSuiteTLS13.NewRecordProtection") == 1 && retErr("CipherSuiteTLS13.NewRecordProtection", 1) == nil
+//@    && sameRef(result0.Protection, retAs("CipherSuiteTLS13.NewRecordProtection", 0, result0.Protection)) && sameSlice(argBytes("CipherSuiteTLS13.NewRecordProtection", 1), result0.Secret)
 //@ ensures current-unchanged: current.Epoch == old(current.Epoch) && current.Generation == old(current.Generation)
 //@ ensures current-secret-unchanged: bytesEq(current.Secret, old(current.Secret))
-//@ ensures dbg-secret-hdr: sameSlice(current.Secret, old(current.Secret))
 //@ ensures fresh-object: result1 == nil ==> result0 != current
 //@ end
 
@@ -83,20 +77,74 @@ package dtlshandshake
 // FLIGHTS(p): every registered flight is a real object stored under its own ID.
 
 //@ define FLIGHTS(p) forallKey(p.flights, func(k postHandshakeFlightID) bool { return allocated(p.flights[k]) && p.flights[k].ID == k })
+//@ define FLIGHTS_KEPT(p) (sameRef(p.flights, old(p.flights)) && len(p.flights) == old(len(p.flights)) && forallKey(p.flights, func(k postHandshakeFlightID) bool {
+//@    return old(hasKey(p.flights, k)) && p.flights[k] == old(p.flights[k]) && old(allocated(p.flights[k])) && p.flights[k].ID == k }))
 //@ define DONE(p, id) (hasKey(p.flights, id) && len(p.flights[id].PendingFragments) == 0)
 
 //@ func postHandshake.applyACK
 //@ requires args: p != nil
 //@ requires flights: FLIGHTS(p)
 //@ ensures only-fully-acked: forall(0, len(result), func(i int) bool { return DONE(p, result[i]) })
-//@ ensures flights-kept: sameRef(p.flights, old(p.flights)) && len(p.flights) == old(len(p.flights)) && FLIGHTS(p)
+//@ ensures flights-kept: FLIGHTS_KEPT(p)
 //@ ensures pending-only-shrinks: forallKey(p.flights, func(k postHandshakeFlightID) bool { return len(p.flights[k].PendingFragments) <= old(len(p.flights[k].PendingFragments)) })
-//@ loop #1: flights-kept: sameRef(p.flights, old(p.flights)) && len(p.flights) == old(len(p.flights)) && FLIGHTS(p)
+//@ loop #1: flights-kept: FLIGHTS_KEPT(p)
 //@ loop #1: completed-done: completed != nil && forallKey(completed, func(id postHandshakeFlightID) bool { return DONE(p, id) })
 //@ loop #1: pending-only-shrinks: forallKey(p.flights, func(k postHandshakeFlightID) bool { return len(p.flights[k].PendingFragments) <= old(len(p.flights[k].PendingFragments)) })
-//@ loop #2: flights-kept: sameRef(p.flights, old(p.flights)) && len(p.flights) == old(len(p.flights)) && FLIGHTS(p) && flight != nil
+//@ loop #2: flights-kept: FLIGHTS_KEPT(p) && flight != nil
 //@ loop #2: completed-done: completed != nil && forallKey(completed, func(id postHandshakeFlightID) bool { return DONE(p, id) })
 //@ loop #2: pending-only-shrinks: forallKey(p.flights, func(k postHandshakeFlightID) bool { return len(p.flights[k].PendingFragments) <= old(len(p.flights[k].PendingFragments)) })
+//@ loop #3: fk1: sameRef(p.flights, old(p.flights)) && len(p.flights) == old(len(p.flights))
+//@ loop #3: fk2: forallKey(p.flights, func(k postHandshakeFlightID) bool { return old(hasKey(p.flights, k)) && p.flights[k] == old(p.flights[k]) && old(allocated(p.flights[k])) })
+//@ loop #3: fk3: forallKey(p.flights, func(k postHandshakeFlightID) bool { return p.flights[k].ID == k })
+//@ loop #3: pending-only-shrinks: forallKey(p.flights, func(k postHandshakeFlightID) bool { return len(p.flights[k].PendingFragments) <= old(len(p.flights[k].PendingFragments)) })
 //@ loop #3: out-done: forall(0, len(out), func(i int) bool { return DONE(p, out[i]) })
 //@ loop #3: completed-done: forallKey(completed, func(id postHandshakeFlightID) bool { return DONE(p, id) })
+//@ end
+
+// A peer KeyUpdate is honoured only when it arrived under the current read epoch, which is also
+// the authorised remote epoch; then exactly one new read generation (the successor of the current
+// one) is installed - the write direction is untouched, the previous read generation is retained by
+// Install - and the authorised remote epoch advances by one. Queued records are only released
+// afterwards. Anything else changes neither keys nor epoch.
+
+// TGW() is only a type witness (*dtlsstate.TrafficGeneration) for argAs/retAs; it is never evaluated.
+//@ define TGW() p.flights[postHandshakeFlightID{}].PendingWrite
+//@ define CUR() argAs("postHandshake.nextTrafficGeneration", 1, TGW())
+//@ define NEXT() retAs("postHandshake.nextTrafficGeneration", 0, TGW())
+
+//@ func postHandshake.handleKeyUpdate
+//@ watch TrafficKeyState.Install Common.SetRemoteEpoch postHandshake.nextTrafficGeneration Notify HandleQueuedPackets TrafficKeyState.CurrentRead postHandshake.queueRequiredKeyUpdateResponse
+//@ requires args: p != nil && p.state != nil && p.state.Common != nil && message != nil
+//@ requires conn-impl: typeIs(conn, "github.com/pion/dtls/v3.handshakeConn")
+//@ requires suite-payload: isNil(p.state.Common.CipherSuite) || nonNilPayload(p.state.Common.CipherSuite)
+//@ ensures no-keys-no-update: old(p.state.TrafficKeys) == nil ==> result != nil && !called("TrafficKeyState.Install") && !called("Common.SetRemoteEpoch")
+//@ ensures install-needs-authorised-epoch: called("TrafficKeyState.Install") ==> old(p.state.Common.RemoteEpoch()) == epoch
+//@ ensures install-needs-current-epoch: called("TrafficKeyState.Install") ==> called("postHandshake.nextTrafficGeneration")
+//@    && CUR() == retAs("TrafficKeyState.CurrentRead", 0, TGW()) && retBool("TrafficKeyState.CurrentRead", 1) && old(CUR().Epoch) == epoch
+//@ ensures wrong-epoch-alert: old(p.state.TrafficKeys) != nil && called("TrafficKeyState.CurrentRead") && retBool("TrafficKeyState.CurrentRead", 1)
+//@    && old(p.state.Common.RemoteEpoch()) != epoch && !isNil(old(retAs("TrafficKeyState.CurrentRead", 0, TGW()).Protection))
+//@    ==> called("Notify") && !called("TrafficKeyState.Install") && !called("Common.SetRemoteEpoch")
+//@ ensures derive-once: ncalls("postHandshake.nextTrafficGeneration") <= 1
+//@ ensures install-once-before-release: !called("HandleQueuedPackets") ==> ncalls("TrafficKeyState.Install") <= 1 && ncalls("Common.SetRemoteEpoch") <= 1
+//@ ensures install-read-only: called("TrafficKeyState.Install") ==> argAs("TrafficKeyState.Install", 1, TGW()) == nil
+//@    && argAs("TrafficKeyState.Install", 2, TGW()) == NEXT() && NEXT() != nil
+//@    && argAs("TrafficKeyState.Install", 0, p.state.TrafficKeys) == old(p.state.TrafficKeys)
+//@ ensures derivation-error-no-install: called("postHandshake.nextTrafficGeneration") && retErr("postHandshake.nextTrafficGeneration", 1) != nil
+//@    ==> !called("TrafficKeyState.Install") && !called("Common.SetRemoteEpoch") && sameRef(result, retErr("postHandshake.nextTrafficGeneration", 1))
+// Composition (not a single clause): the generation handed to Install is the result of
+// nextTrafficGeneration(current) (clause install-read-only), whose own contract gives epoch+1 /
+// generation+1 / successor secret; current is the CurrentRead generation whose epoch equals both the
+// record's epoch and the authorised remote epoch (install-needs-*). Neither next.Epoch nor the
+// argument of SetRemoteEpoch can be stated at the final return: HandleQueuedPackets is opaque with
+// write set "*" and may itself call SetRemoteEpoch (ChangeCipherSpec handling in conn.go); only the
+// last call of a name is observable (engine limit, reported).
+//@ ensures authorise-only-after-install: called("Common.SetRemoteEpoch") && !called("TrafficKeyState.Install") ==> called("HandleQueuedPackets") || called("Notify")
+//@ ensures install-then-authorise: called("TrafficKeyState.Install") ==> calledBefore("TrafficKeyState.Install", "Common.SetRemoteEpoch")
+//@ ensures release-queued-after: called("HandleQueuedPackets") ==> calledBefore("Common.SetRemoteEpoch", "HandleQueuedPackets") && sameRef(result, retErr("HandleQueuedPackets", 0))
+//@ ensures response-queued-first: called("TrafficKeyState.Install") ==> calledBefore("postHandshake.queueRequiredKeyUpdateResponse", "TrafficKeyState.Install")
+//@    && argAs("postHandshake.queueRequiredKeyUpdateResponse", 1, message.RequestUpdate) == old(message.RequestUpdate)
+//@ end
+
+//@ func postHandshake.queueRequiredKeyUpdateResponse
+//@ noinline
 //@ end
